@@ -416,3 +416,126 @@ def check_analysis_faults():
                         found.setdefault(f"analysis_pass_changed_the_model|{pname}|{variant}|{fault}|{'raised' if exc else 'returned'}",
                                          {"seed": (forms, outs), "path": [pname], "clause": "analysis_pass_changed_the_model", "detail": {"variant": variant, "fault": fault, "raised": repr(exc)[:80] if exc else None, "changed": what}})
     return n, found
+
+
+# ---------------------------------------------------------------------------
+# C14: functionalize() and Sequential / PassManager compositions
+
+def _direct(proto_bytes, names, rounds=1, early_stop=False):
+    """Reference: the passes applied one after another by hand on a fresh deserialisation."""
+    model = ir.from_proto(onnx.ModelProto.FromString(proto_bytes))
+    any_mod = False
+    for _ in range(rounds):
+        step_mod = False
+        for nm in names:
+            res = PASS_INDEX[nm]()(model)
+            model = res.model
+            step_mod = step_mod or bool(res.modified)
+        any_mod = any_mod or step_mod
+        if early_stop and not step_mod:
+            break
+    return ser(ir.to_proto(model)), any_mod
+
+
+def _composition_work(task):
+    which, lo, hi, pair_stride = task
+    from mc.props import c03
+
+    found = {}
+    n = 0
+    names = [nm for nm, _ in PASSES]
+    for i, (desc, proto) in enumerate(seed_protos("quick", which)):
+        if i < lo:
+            continue
+        if i >= hi:
+            break
+        try:
+            onnx.checker.check_model(proto)
+        except Exception:  # noqa: BLE001
+            continue
+        pb = ser(ir.to_proto(ir.from_proto(proto)))
+
+        def add(clause, pname, detail):
+            found.setdefault(f"{clause}|{pname}", {"seed": desc, "path": [pname], "clause": clause, "detail": detail})
+
+        # (a) functionalize(p): never touches its input, returns another object, computes what p computes
+        for nm in names:
+            try:
+                want, want_mod = _direct(pb, [nm])
+            except Exception:  # noqa: BLE001
+                continue  # the pass itself fails on this model: C05's subject
+            model = ir.from_proto(onnx.ModelProto.FromString(pb))
+            before = c03.full_snapshot(model)
+            fp = ir.passes.functionalize(PASS_INDEX[nm]())
+            n += 1
+            if fp.in_place or fp.changes_input:
+                add("functionalized_pass_declares_in_place_or_changes_input", nm, (fp.in_place, fp.changes_input))
+            try:
+                res = fp(model)
+            except Exception as e:  # noqa: BLE001
+                add("functionalized_pass_raises_where_the_pass_does_not", nm, f"{type(e).__name__}: {str(e)[:120]}")
+                continue
+            if res.model is model:
+                add("functionalized_pass_returned_its_input", nm, None)
+            if c03.full_snapshot(model) != before:
+                add("functionalized_pass_changed_its_input", nm, None)
+            try:
+                got = ser(ir.to_proto(res.model))
+            except Exception as e:  # noqa: BLE001
+                add("functionalized_result_not_serializable", nm, f"{type(e).__name__}: {str(e)[:120]}")
+                continue
+            if got != want:
+                add("functionalized_result_differs_from_direct_application", nm, None)
+            if bool(res.modified) != bool(want_mod):
+                add("functionalized_modified_flag_differs", nm, (res.modified, want_mod))
+        # (b) compositions of two passes
+        pairs = [(a, b) for a in names for b in names]
+        for j, (a, b) in enumerate(pairs):
+            if (j + i) % pair_stride:
+                continue
+            try:
+                want1, mod1 = _direct(pb, [a, b])
+                want2, mod2 = _direct(pb, [a, b], rounds=3, early_stop=True)
+                want3, mod3 = _direct(pb, [a, b], rounds=2, early_stop=False)
+            except Exception:  # noqa: BLE001
+                continue
+            for label, mk, want, wmod in (
+                ("Sequential", lambda: ir.passes.Sequential(PASS_INDEX[a](), PASS_INDEX[b]()), want1, mod1),
+                ("PassManager(steps=3,early_stop)", lambda: ir.passes.PassManager([PASS_INDEX[a](), PASS_INDEX[b]()], steps=3, early_stop=True), want2, mod2),
+                ("PassManager(steps=2,no_early_stop)", lambda: ir.passes.PassManager([PASS_INDEX[a](), PASS_INDEX[b]()], steps=2, early_stop=False), want3, mod3),
+                ("functionalize(Sequential)", lambda: ir.passes.functionalize(ir.passes.Sequential(PASS_INDEX[a](), PASS_INDEX[b]())), want1, mod1),
+            ):
+                model = ir.from_proto(onnx.ModelProto.FromString(pb))
+                before = c03.full_snapshot(model) if label.startswith("functionalize") else None
+                comp = mk()
+                n += 1
+                nm = f"{label}[{a},{b}]"
+                try:
+                    res = comp(model)
+                except Exception as e:  # noqa: BLE001
+                    found.setdefault(f"composition_raises_where_its_members_do_not|{label}|{type(e).__name__}", {"seed": desc, "path": [nm], "clause": "composition_raises_where_its_members_do_not", "detail": f"{type(e).__name__}: {str(e)[:120]}"})
+                    continue
+                if comp.in_place and res.model is not model:
+                    found.setdefault(f"in_place_composition_returned_another_object|{label}", {"seed": desc, "path": [nm], "clause": "in_place_composition_returned_another_object", "detail": None})
+                if not comp.in_place and res.model is model:
+                    found.setdefault(f"functional_composition_returned_its_input|{label}", {"seed": desc, "path": [nm], "clause": "functional_composition_returned_its_input", "detail": None})
+                if before is not None and c03.full_snapshot(model) != before:
+                    found.setdefault(f"functionalized_composition_changed_its_input|{label}", {"seed": desc, "path": [nm], "clause": "functionalized_composition_changed_its_input", "detail": None})
+                got = ser(ir.to_proto(res.model))
+                if got != want:
+                    found.setdefault(f"composition_differs_from_member_by_member_application|{label}", {"seed": desc, "path": [nm], "clause": "composition_differs_from_member_by_member_application", "detail": None})
+                if bool(res.modified) != bool(wmod):
+                    found.setdefault(f"composition_modified_flag_differs|{label}", {"seed": desc, "path": [nm], "clause": "composition_modified_flag_differs", "detail": (res.modified, wmod)})
+    return n, found
+
+
+def check_compositions(tier):
+    n1 = sum(1 for _ in gg.gen_models(1))
+    stride = 7 if tier == "quick" else 1
+    tasks = [("n1", lo, min(n1, lo + 2), stride) for lo in range(0, n1, 2)] + [("special", 0, 8, stride)]
+    res = common.pmap(_composition_work, common.shuffled(tasks, "compositions"), chunksize=1)
+    found = {}
+    for _, f in res:
+        for k, v in f.items():
+            found.setdefault(k, v)
+    return sum(a for a, _ in res), found
